@@ -157,11 +157,22 @@ func ruleDrain(c *Ctx) {
 					}
 				}
 			case *ast.CallExpr:
+				// io.TeeReader(pipe, w) handed on: what matters is who consumes the tee
+				var self ast.Expr = call
+				if p.CalleeName(f, pp) == "io.TeeReader" && len(pp.Args) == 2 && pp.Args[0] == ast.Expr(call) {
+					if outer, ok := p.Parent(pp).(*ast.CallExpr); ok {
+						// a write error of the tee's writer becomes a read error of the
+						// tee, which ends the drain: a module writer used there must
+						// never report one
+						p.teeWriterNeverFails(c, f, pp.Args[1], pipe)
+						self, pp = pp, outer
+					}
+				}
 				// argument of another call: a module function (parameter) or a wrapper constructor
 				callee := p.FnOf(asFunc(p.Callee(f, pp)))
 				if callee != nil {
 					for i, a := range pp.Args {
-						if a == call {
+						if a == self {
 							if pv := paramVar(callee, i); pv != nil {
 								consumers = append(consumers, struct {
 									f    *Func
@@ -216,11 +227,27 @@ func paramVar(f *Func, idx int) *types.Var {
 func (p *Prog) drainCheck(c *Ctx, f *Func, src *types.Var, inline ast.Expr, pipe string) {
 	info := f.Pkg.TypesInfo
 	g := p.Graph(f)
-	isSrc := func(e ast.Expr) bool {
+	var isSrc func(e ast.Expr) bool
+	isSrc = func(e ast.Expr) bool {
 		if inline != nil && e == inline {
 			return true
 		}
-		return src != nil && identObj(info, e) == src
+		if src != nil && identObj(info, e) == src {
+			return true
+		}
+		// io.TeeReader(src, w): every byte read through it is read from src
+		if call, ok := ast.Unparen(e).(*ast.CallExpr); ok && len(call.Args) == 2 && p.CalleeName(f, call) == "io.TeeReader" {
+			return isSrc(call.Args[0])
+		}
+		// a local bound once to such an expression
+		if v, ok := identObj(info, e).(*types.Var); ok && !v.IsField() && types.Object(v) != types.Object(src) {
+			if d := p.singleDef(f, v); d != nil {
+				if call, ok := ast.Unparen(d).(*ast.CallExpr); ok && len(call.Args) == 2 && p.CalleeName(f, call) == "io.TeeReader" {
+					return isSrc(call.Args[0])
+				}
+			}
+		}
+		return false
 	}
 	handled := false
 	for _, call := range f.Calls() {
@@ -572,5 +599,70 @@ func ruleStdoutLines(c *Ctx) {
 	}
 	if !found {
 		c.R.Undecided("R-DRAIN/lines", f.Name, "anchor", "no goroutine scanning stdout with bufio.Scanner found in Start")
+	}
+}
+
+// teeWriterNeverFails: w in io.TeeReader(pipe, w) is a value of a module type
+// whose Write returns a nil error on every path (or the error of a
+// bytes.Buffer write, which is always nil) and never less than len(p).
+func (p *Prog) teeWriterNeverFails(c *Ctx, f *Func, w ast.Expr, pipe string) {
+	info := f.Pkg.TypesInfo
+	t := info.TypeOf(w)
+	if t == nil {
+		return
+	}
+	if pt, ok := t.Underlying().(*types.Pointer); ok {
+		t = pt.Elem()
+	}
+	nt, ok := t.(*types.Named)
+	if !ok || nt.Obj().Pkg() == nil || !strings.HasPrefix(nt.Obj().Pkg().Path(), modPath) {
+		return
+	}
+	wf := p.Fn(nt.Obj().Name() + ".Write")
+	construct := pipe + " tee writer " + nt.Obj().Name() + ".Write never fails"
+	if wf == nil || wf.Decl == nil {
+		c.R.Undecided("R-DRAIN", f.Name, construct, "Write method of the tee's writer not found")
+		return
+	}
+	winfo := wf.Pkg.TypesInfo
+	var pv types.Object
+	if wf.Decl.Type.Params != nil && len(wf.Decl.Type.Params.List) == 1 && len(wf.Decl.Type.Params.List[0].Names) == 1 {
+		pv = winfo.Defs[wf.Decl.Type.Params.List[0].Names[0]]
+	}
+	bad := ""
+	walkNoLit(wf.Body, func(x ast.Node) bool {
+		rs, ok := x.(*ast.ReturnStmt)
+		if !ok {
+			return true
+		}
+		switch len(rs.Results) {
+		case 2:
+			if !isNilIdent(winfo, rs.Results[1]) {
+				bad = "returns a non-nil error at " + p.Pos(rs)
+			}
+			full := false
+			if call, ok := ast.Unparen(rs.Results[0]).(*ast.CallExpr); ok && len(call.Args) == 1 {
+				if id, ok := call.Fun.(*ast.Ident); ok && id.Name == "len" && identObj(winfo, call.Args[0]) == pv && pv != nil {
+					full = true
+				}
+			}
+			if !full {
+				bad = "does not report len(p) bytes written at " + p.Pos(rs)
+			}
+		case 1:
+			call, ok := ast.Unparen(rs.Results[0]).(*ast.CallExpr)
+			if !ok || !strings.HasPrefix(p.CalleeName(wf, call), "bytes.Buffer.Write") || len(call.Args) != 1 || identObj(winfo, call.Args[0]) != pv {
+				bad = "returns the result of another call at " + p.Pos(rs)
+			}
+		default:
+			bad = "bare return at " + p.Pos(rs)
+		}
+		return true
+	})
+	if bad != "" {
+		c.R.Violate("R-DRAIN", p.Pos(w), f.Name, construct,
+			"the writer teed off the plugin's "+pipe+" "+bad+": io.TeeReader turns a short or failed write into a read error, the reader goroutine stops draining the pipe and the plugin blocks on it", nil)
+	} else {
+		c.R.Hold("R-DRAIN", p.Pos(w), f.Name, construct, "every return reports len(p), nil (or a bytes.Buffer write of p)", true)
 	}
 }
